@@ -9,10 +9,18 @@
 package vs
 
 import (
+	"context"
 	"fmt"
 	"runtime/debug"
+	"runtime/pprof"
+	"strconv"
 	"strings"
+	"unsafe"
 )
+
+// ForeignCalls counts shim calls made by goroutines the scheduler does not own while a run was active
+// (they pass through to the real primitives).
+var ForeignCalls int64
 
 // Why tells a Decider for what reason it is consulted.
 type Why uint8
@@ -63,6 +71,8 @@ type Thread struct {
 	wake      chan struct{}
 	fn        func()
 	OpIndex   int // maintained by harness: index of op in progress (-1 = none)
+	label     unsafe.Pointer // this goroutine's profiler-label pointer (identity)
+	labelled  chan struct{}
 	ClockReads []int64 // instants this thread read from the ticking virtual clock (harness resets per call)
 }
 
@@ -122,13 +132,29 @@ type Sched struct {
 
 var active *Sched
 
-// Active reports whether a controlled run is in progress.
-func Active() bool { return active != nil }
+// Active reports whether a controlled run is in progress AND the caller is its running thread. A goroutine the
+// scheduler does not own (the runtime's finalizer goroutine, a timer callback, a helper the library started
+// before the run) gets false and therefore the real primitives: it must never be mistaken for the running
+// thread. Goroutines are told apart by their profiler-label pointer, which each controlled thread sets to a
+// value of its own when it starts (reading it costs a few nanoseconds).
+func Active() bool {
+	s := active
+	if s == nil {
+		return false
+	}
+	t := s.running
+	return t != nil && t.label != nil && runtime_getProfLabel() == t.label
+}
+
+//go:linkname runtime_getProfLabel runtime/pprof.runtime_getProfLabel
+func runtime_getProfLabel() unsafe.Pointer
 
 // Cur returns the running virtual thread (nil when inactive).
 func Cur() *Thread {
 	if s := active; s != nil {
-		return s.running
+		if t := s.running; t != nil && runtime_getProfLabel() == t.label {
+			return t
+		}
 	}
 	return nil
 }
@@ -152,12 +178,15 @@ func Run(decider Decider, budget int, fns ...func()) *Result {
 	}
 	s := &Sched{decider: decider, budget: budget, doneCh: make(chan struct{})}
 	for i, fn := range fns {
-		t := &Thread{ID: i, wake: make(chan struct{}, 1), fn: fn, OpIndex: -1}
+		t := &Thread{ID: i, wake: make(chan struct{}, 1), fn: fn, OpIndex: -1, labelled: make(chan struct{})}
 		s.Threads = append(s.Threads, t)
 	}
 	active = s
 	for _, t := range s.Threads {
 		go s.body(t)
+	}
+	for _, t := range s.Threads {
+		<-t.labelled
 	}
 	first := s.pick(nil, Start)
 	if first == nil {
@@ -177,6 +206,9 @@ func Run(decider Decider, budget int, fns ...func()) *Result {
 }
 
 func (s *Sched) body(t *Thread) {
+	pprof.SetGoroutineLabels(pprof.WithLabels(context.Background(), pprof.Labels("vs-thread", strconv.Itoa(t.ID))))
+	t.label = runtime_getProfLabel()
+	close(t.labelled)
 	<-t.wake
 	defer func() {
 		if r := recover(); r != nil {
@@ -304,13 +336,17 @@ func (s *Sched) abort(t *Thread) {
 	panic(poisonT{})
 }
 
-// Point is a scheduling point of the given kind. No-op when inactive.
+// Point is a scheduling point of the given kind. No-op when inactive or called from a foreign goroutine.
 func Point(k Kind, addr uintptr) {
 	s := active
 	if s == nil {
 		return
 	}
 	t := s.running
+	if t == nil || runtime_getProfLabel() != t.label {
+		ForeignCalls++
+		return
+	}
 	if s.poisoned {
 		// unwinding: never block again
 		return
